@@ -48,6 +48,31 @@ CHECKS["C15"] = (
     "DESIGN.md section 4, C15",
 )
 
+CHECKS["C08"] = (
+    "differential property-based testing: generated (model spec, state) pairs evaluated through two independent code paths (functional vs equation of state, wrappers vs bare model, ePC-SAFT without ions vs PC-SAFT, SAFT-VRQ Mie FH0 vs SAFT-VR Mie, closed-form vs iterative association, homo-GC from_segments vs harness-combined record, Peng-Robinson vs closed form in SI)",
+    "Eight sampled parts (about 14 700 pair-states per quick run) compare beta A_res/N, p_res, S_res, mu_res, dp_dv, dp_dt, dp_dni and dmu_dni of the two members of each pair with cancellation-safe, conditioning-aware tolerances; a mismatch that matches the code signature of an open known finding is attributed to it and the rest of the model is still compared with the affected contribution removed. Exploration over generated parameter sets, states, FMT versions and option structs.",
+    "Tolerances: DFT vs EoS 1e-9 + 1e-12 round term, wrappers / ePC-SAFT 1e-13 (widened by the association stiffness eps*rho*Delta and to 1e-8 on the iterative association path), homo-GC 1e-11, Peng-Robinson 1e-12, VRQ(FH0) vs VR Mie 1e-3 (different Barker-Henderson quadratures, pure components only). Open known findings masked by signature: pure PC-SAFT functional without dipole-quadrupole term, gc-PC-SAFT functional without dipole term, functional ignores dq_variant, association functional drops C sites on the iterative path.",
+    "DESIGN.md section 4, C08",
+)
+CHECKS["C09"] = (
+    "metamorphic property-based testing: permutation of components (all permutations, n <= 4), zero-mole padding, splitting into identical components, Components::subset vs directly built model (all subsets and orders, non-default options), pure-component quantities inside mixture algorithms vs the pure model",
+    "Five sampled parts (about 3 800 cases, 280 000 comparisons per quick run) over all model families with non-default option structs forced in 75 % of the cases: scalar results must be unchanged and indexed results permuted; padded / split / subset models must reproduce the directly built model including compute_max_density; vapor_pressure, vle_pure_comps, critical_point_pure, ln_phi_pure_liquid, activity coefficients and Henry constants must equal the harness recipe on directly built pure models.",
+    "Tolerances 2e-12 (1e-11 gc / ePC-SAFT / SAFT-VR Mie, 3e-9 Peng-Robinson, 2e-8 with association, 1e-7 for solver results, 1e-3 for gc solver results whose HashMap-ordered builds differ). Splitting ions, the sigma(T) water record and gc molecules with binary group k_ij is excluded by construction. Open known findings masked by signature: see C08 (mirror entries).",
+    "DESIGN.md section 4, C09",
+)
+CHECKS["C10"] = (
+    "property-based testing with a reference model: Total = IdealGas + Residual for every selector getter, closed forms of the ideal-gas part in SI, harness re-implementation of the Joback polynomial and DIPPR 100/107/127 equations (cp, cv, derivatives, Gauss-Legendre integrals for h, u, s differences), ideal mixing, zero-density limit along density sequences down to 1e-12 rho_max",
+    "Sampled part (16 000 cases x ~125 comparisons: 13 residual families x shipped / random DIPPR 100/107/127 / Joback-from-segments / random Joback ideal-gas models, T in [150,1500] K), limit part (8 000 density sequences) and an exhaustive lattice over all 308 poling2000 records and the 88 joback1987 group-contribution molecules.",
+    "Tolerances: sum rule 1e-11 of the cancellation-safe scale, closed forms 1e-12, SI pressure 1e-13, DIPPR cp 2e-10, Joback vs plain polynomial 2e-5 (the model uses the CODATA-2014 gas constant: systematic 3.4e-7), limit ratio per decade in [0.07,0.13]. The reference state of h_ig/s_ig is arbitrary and not asserted. Open known findings: the ePC-SAFT Born term does not vanish at zero density; roundoff of the ionic chi function below 1e-8 rho_max.",
+    "DESIGN.md section 4, C10",
+)
+CHECKS["C20"] = (
+    "property-based testing with reference models: entropy-scaling identities (value = reference x exp(correlation), harness-evaluated correlation polynomial and Chapman-Enskog reference, vanishing-component limit, equal-s_res metamorphic relation by harness bisection); estimator: differential predict vs wrapped library call for all 12 DataSet variants, self-generated targets give zero cost for every loss, closed forms of the robust losses, normalised-weight cost concatenation",
+    "Three sampled parts per run: 5 000 transport states (PC-SAFT with shipped / random coefficients and SAFT-VRQ Mie, T/Tc in [0.5,2], gas to liquid densities, binaries with x2 in {0,1e-12}), 5 000 loss cases (62 000 residual values on both sides of |r| = f), 1 500 estimator cases with about 3 000 generated data sets of 1-20 points.",
+    "PeTS has no entropy scaling in this tree (commented out) and is not covered; diffusion / thermal conductivity are pure-component only. Tolerances 1e-13 .. 1e-9 (see evidence); states with |ln reduced| > 200 are discarded. Open known finding: the thermal-conductivity reference is negative for long chains at low reduced temperature (positivity clause masked by signature).",
+    "DESIGN.md section 4, C20",
+)
+
 NOT_YET = {}
 
 def main():
